@@ -133,11 +133,33 @@ func srtGenModelN(r *fw.Rand, n int) []srtCue {
 				}
 				runs = append(runs, run)
 			}
+			// a marked-up run at the edge of a line may begin or end with a blank (<i>no </i>): it is inside the
+			// element, hence text (the renderings then close every tag with its run, see srtEdgeBlanks)
+			if n := len(runs); r.P(1, 8) {
+				if f := &runs[0]; f.B || f.I || f.U || f.Color != "" {
+					f.Text = " " + f.Text
+				}
+				if l := &runs[n-1]; l.B || l.I || l.U || l.Color != "" {
+					l.Text += " "
+				}
+			}
 			c.Lines = append(c.Lines, runs)
 		}
 		cs[k] = c
 	}
 	return cs
+}
+
+// srtEdgeBlanks says whether some line of the model begins or ends with a blank (inside a marked-up run)
+func srtEdgeBlanks(cs []srtCue) bool {
+	for _, c := range cs {
+		for _, l := range c.Lines {
+			if len(l) > 0 && (strings.HasPrefix(l[0].Text, " ") || strings.HasSuffix(l[len(l)-1].Text, " ")) {
+				return true
+			}
+		}
+	}
+	return false
 }
 
 type srtRender struct {
@@ -157,6 +179,7 @@ type srtRender struct {
 	hours1    bool
 	ownLine   bool // tags opened before the first text line / closed after the last one stand on a line of their own
 	idxMix    uint64
+	wsBlank   bool // blank lines (between cues, at the end of the file) may hold blanks and tabs
 	sepMix    bool // each time stamp picks its own millisecond separator
 	innerFont bool // a colour-less <font size=..>/<font face=..> element inside a coloured run (closed with it)
 }
@@ -178,7 +201,7 @@ func srtGenRender(r *fw.Rand) srtRender {
 	return srtRender{
 		eol: fw.Pick(r, []string{"\n", "\r\n", "\r"}), bom: r.P(1, 3), indexKind: fw.Pick(r, []int{0, 3, 3, 1, 2}), idxMix: r.U64(),
 		between: r.Range(1, 3), atEOF: r.Range(-1, 3), sep: fw.Pick(r, []string{",", "."}), minDigits: r.P(1, 3),
-		sepMix: r.P(1, 6), innerFont: r.P(1, 3),
+		sepMix: r.P(1, 6), innerFont: r.P(1, 3), wsBlank: r.P(1, 4),
 		ownLine: r.P(1, 3), arrow: r.Intn(5), coords: r.P(1, 5), upper: r.P(1, 4), quote: r.Intn(3), tagMode: r.Intn(3), escAll: r.Bool(), hours1: r.P(1, 4),
 	}
 }
@@ -376,7 +399,12 @@ func srtRenderDoc(cs []srtCue, o srtRender, r *fw.Rand) []byte {
 			b.WriteString(o.eol)
 		}
 		if k < len(cs)-1 {
-			b.WriteString(strings.Repeat(o.eol, o.between))
+			for j := 0; j < o.between; j++ {
+				if o.wsBlank && (j > 0 || o.between == 1) && r.Bool() {
+					b.WriteString(fw.Pick(r, []string{" ", "\t", "  \t "})) // a blank line may hold blanks
+				}
+				b.WriteString(o.eol)
+			}
 		}
 	}
 	s := b.String()
@@ -384,7 +412,12 @@ func srtRenderDoc(cs []srtCue, o srtRender, r *fw.Rand) []byte {
 		if o.atEOF < 0 {
 			s = strings.TrimSuffix(s, o.eol)
 		} else {
-			s += strings.Repeat(o.eol, o.atEOF)
+			for j := 0; j < o.atEOF; j++ {
+				if o.wsBlank && r.Bool() {
+					s += fw.Pick(r, []string{" ", "\t", "  \t "})
+				}
+				s += o.eol
+			}
 		}
 	}
 	return []byte(s)
@@ -558,6 +591,9 @@ func c01Reader(c *fw.Ctx) fw.Outcome {
 	// several renderings of the same model
 	for k := 0; k < 4; k++ {
 		o := srtGenRender(c.R)
+		if srtEdgeBlanks(model) {
+			o.tagMode = 0 // every tag is closed with its run: the blank stays inside the element
+		}
 		mixed := c.R.P(1, 6)
 		if mixed {
 			o.eol = "\n"
